@@ -184,21 +184,25 @@ Qed.
 (* the metadata table reader: once it says something other than "not yet / not there", more bytes
    do not change the answer *)
 Lemma meta_table_prefix m x :
-  vx_meta_table m = Ok None \/ vx_meta_table (m ++ x) = vx_meta_table m.
+  (vx_meta_table m = Ok None /\ (blen m < 32 \/ (32 <= blen m /\ blen m < vx_entries_size m)))
+  \/ vx_meta_table (m ++ x) = vx_meta_table m.
 Proof.
   unfold vx_meta_table, vx_entries_size, vx_meta_count. rewrite !flen_blen, !nslice_bslice.
   unfold VHDX_MT_MIN.
-  destruct (blen m <? 32) eqn:H32; [left; reflexivity|].
+  destruct (blen m <? 32) eqn:H32; [left; split; [reflexivity | left; lia]|].
   rewrite !(bslice_app_le _ _ m x) by lia.
   replace (blen (m ++ x) <? 32) with false by (rewrite blen_app; lia).
   destruct (negb (beq (bslice 0 8 m) VHDX_META_SIG)); [right; reflexivity|].
   set (count := le_val (bslice 10 2 m)).
-  destruct (blen m <? VHDX_MT_BASE + count * VHDX_MT_STRIDE) eqn:Hes; [left; reflexivity|].
+  destruct (blen m <? VHDX_MT_BASE + count * VHDX_MT_STRIDE) eqn:Hes; [left; split; [reflexivity | right; lia]|].
   unfold VHDX_MT_BASE, VHDX_MT_STRIDE in *.
   replace (blen (m ++ x) <? 32 + count * 32) with false by (rewrite blen_app; lia).
   right. destruct (VHDX_MT_LIMIT <=? count); [reflexivity|].
   unfold vx_first_guid, VHDX_MT_BASE2. rewrite entries_app by lia. reflexivity.
 Qed.
+
+Lemma entries_size_ge m : 32 <= vx_entries_size m.
+Proof. unfold vx_entries_size, VHDX_MT_BASE. lia. Qed.
 
 (* the number of entries is read from the first 12 bytes *)
 Lemma entries_size_prefix m x : 32 <= blen m -> vx_entries_size (m ++ x) = vx_entries_size m.
